@@ -102,6 +102,13 @@ def gen_case(ctx, idx):
     open(os.path.join(dz, "nested", "deep.txt"), "w").close()
     if rng.random() < 0.4:
         os.symlink(os.path.basename(dz), os.path.join(os.path.dirname(dz), "lnk%d.ear" % idx))
+    # entries with an archive name that are not files at all: a dangling link, a link that points at itself, a link to a good
+    # archive (listed through the link), a FIFO is left out (opening it would block, recorded finding F47)
+    if idx % 2 == 0:
+        os.symlink("missing-target", os.path.join(rng.choice(dirs), "0stale%d.zip" % idx))
+    if idx % 3 == 0:
+        lp_ = os.path.join(rng.choice(dirs), "loop%d.jar" % idx)
+        os.symlink(os.path.basename(lp_), lp_)
     return root, zips, corrupts
 
 
@@ -254,6 +261,6 @@ def run(ctx):
     st["hist"]["archives_with_unopenable_member"] = getattr(ctx, "badmember_count", 0)
     ctx.coverage.update(
         evaluations=st["evaluations"], distinct_nontrivial=len(st["distinct"]), traces_validated_against_impl=st["agreed"],
-        rule="random trees with 1-4 zip archives (0-8 members: nested dirs, stored/deflated, every file type and permission bits in the unix mode, dates across months incl. months shorter than today's day, unicode/space names), extensions .zip/.jar/.war/.ear in mixed case, a zip under another extension, a non-empty directory named *.zip / *.jar (and a link to it named *.ear), corrupt archives (truncated, flipped central-directory bytes, garbage), archives with one member that cannot be opened (marked encrypted; it is skipped, the rest listed) x bfs/dfs x mindepth/maxdepth windows x (the default configuration | a configuration file that says nothing about archive extensions) (an archive outside the window contributes no member row): ordinary rows unchanged, members exactly once after their archive in index order, member columns (name, size, is_dir, mode, modified) = what the archive stores, WHERE/ORDER BY/LIMIT apply (ordered top N, and the unordered first N of filtered searches); exact row sequence vs model.Walk; plus every truncation point of one archive. non-trivial = at least two members",
+        rule="random trees with 1-4 zip archives (0-8 members: nested dirs, stored/deflated, every file type and permission bits in the unix mode, dates across months incl. months shorter than today's day, unicode/space names), extensions .zip/.jar/.war/.ear in mixed case, a zip under another extension, a non-empty directory named *.zip / *.jar (and a link to it named *.ear), a dangling link and a self-referential link named like an archive, corrupt archives (truncated, flipped central-directory bytes, garbage), archives with one member that cannot be opened (marked encrypted; it is skipped, the rest listed) x bfs/dfs x mindepth/maxdepth windows x (the default configuration | a configuration file that says nothing about archive extensions) (an archive outside the window contributes no member row): ordinary rows unchanged, members exactly once after their archive in index order, member columns (name, size, is_dir, mode, modified) = what the archive stores, WHERE/ORDER BY/LIMIT apply (ordered top N, and the unordered first N of filtered searches); exact row sequence vs model.Walk; plus every truncation point of one archive. non-trivial = at least two members",
         samples=st["samples"], distribution=dict(st["hist"]))
     return ctx.finish(trusted=["the zip listing (which members a readable archive has) is an input: Python zipfile writes the archives, the zip crate reads them; corrupt archives are only required not to abort or lose other rows"])
